@@ -17,20 +17,24 @@ def build(c, n, log, amp_mode):
         has_ck = c.choice(f"has_ck{i}", [True, False])
         has_h = c.choice(f"has_handler{i}", [False, True])
         required = c.choice(f"required{i}", [True, False])
-        amp = c.real(f"amp{i}", 2, 0, 16) if amp_mode == "sym" else c.choice(f"amp{i}", [1.0, 0.0, 2.5, 200.0])
+        amp = c.real(f"amp{i}", 2, 0, 16) if amp_mode == "sym" else (c.choice(f"amp{i}", [1.0, 0.0, 2.5, 200.0]) if amp_mode == "grid" else [2.0, 0.5, 60.0][i % 3])
 
         def ck(sig, i=i):
-            b = c.choice(f"ck{i}", ["pass", "reject", "raise"])
-            log.append(("ck", i, sig, b))
+            b = c.choice(f"ck{i}", ["pass", "reject", "raise", "raise_empty"])
+            log.append(("ck", i, sig, "raise" if b == "raise_empty" else b))
             if b == "raise":
                 raise ValueError(f"gate {i} broke")
+            if b == "raise_empty":
+                raise AssertionError()          # an exception whose str() is empty (bare assert / raise X())
             return b == "pass"
 
         def proc(sig, i=i):
-            b = c.choice(f"proc{i}", ["ok", "raise"])
-            log.append(("proc", i, sig, b))
+            b = c.choice(f"proc{i}", ["ok", "raise", "raise_empty"])
+            log.append(("proc", i, sig, "raise" if b == "raise_empty" else b))
             if b == "raise":
                 raise RuntimeError(f"stage {i} failed")
+            if b == "raise_empty":
+                raise TimeoutError()
             return ("out", i, sig)
 
         def handler(e, i=i):
@@ -185,7 +189,7 @@ def mapk():
 
 HARNESSES = {
     "run": {"make": run_harness, "witness_every": 13,
-            "jobs": lambda tier: ([{"n": 1, "amp_mode": "sym"}, {"n": 2, "amp_mode": "sym"}, {"n": 3, "amp_mode": "grid"}] if tier == "quick" else
+            "jobs": lambda tier: ([{"n": 1, "amp_mode": "sym"}, {"n": 2, "amp_mode": "sym"}, {"n": 3, "amp_mode": "one"}] if tier == "quick" else
                                   [{"n": 1, "amp_mode": "sym"}, {"n": 2, "amp_mode": "sym"}, {"n": 3, "amp_mode": "sym"}, {"n": 4, "amp_mode": "grid"}]),
             "clauses": ["C19.a", "C19.b", "C19.c", "C19.c-order", "C19.c-out", "C19.c-withheld", "C19.d", "C19.d-product"]},
     "mapk": {"make": mapk, "jobs": lambda tier: [{}], "witness_every": 1, "clauses": ["C19.a", "C19.d"]},
@@ -198,7 +202,7 @@ META = {
         "technique": "symbolic execution of cascade.py run() with lazily chosen stage behaviours and z3 rational amplification",
     },
     "files": ["operon_ai/topology/cascade.py"],
-    "bounds": {"quick": "1-2 stages with symbolic amplification (grid 1/2, 0..16) and symbolic max; 3 stages with 4 grid amplifications; all checkpoint/processor/handler behaviours, required/optional, both halt settings; MAPK preset on 6 inputs",
+    "bounds": {"quick": "1-2 stages with symbolic amplification (grid 1/2, 0..16) and symbolic max; 3 stages with fixed amplifications 2, 0.5, 60 (max 100); all checkpoint/processor/handler behaviours, required/optional, both halt settings; MAPK preset on 6 inputs",
                "thorough": "1-3 stages symbolic amplification; 4 stages grid"},
     "outside": ["max_amplification below 1 (the empty product 1.0 is then reported unclamped)", "run_parallel / conditional modes", "callbacks on_stage_complete/on_cascade_complete", "IEEE rounding of amplification products off the 1/2 grid", "5-stage pipelines"],
     "float_argument": "F-grid: amplification factors k/2 with k<=32 and up to 3 factors: products exact in binary64",
